@@ -111,6 +111,34 @@ theorem sameSet_iff (a b : List String) : sameSet a b = true ↔ ∀ x, x ∈ a 
   · rintro ⟨h1, h2⟩ x; exact ⟨h1 x, h2 x⟩
   · intro h; exact ⟨fun x => (h x).mp, fun x => (h x).mpr⟩
 
+/-- pigeonhole: a duplicate-free list contained in a list that is not longer has the same members,
+and the other list is duplicate-free too -/
+theorem subset_of_nodup_length {l₁ : List String} :
+    ∀ {l₂ : List String}, l₁.Nodup → l₁ ⊆ l₂ → l₂.length ≤ l₁.length → l₂ ⊆ l₁ ∧ l₂.Nodup := by
+  induction l₁ with
+  | nil =>
+    intro l₂ _ _ hlen
+    have : l₂ = [] := List.eq_nil_of_length_eq_zero (by simpa using hlen)
+    subst this; exact ⟨fun _ h => h, List.nodup_nil⟩
+  | cons a t ih =>
+    intro l₂ h₁ hsub hlen
+    rw [List.nodup_cons] at h₁
+    have ha : a ∈ l₂ := hsub (List.mem_cons_self ..)
+    have htsub : t ⊆ l₂.erase a := by
+      intro x hx
+      have hxa : x ≠ a := fun h => h₁.1 (h ▸ hx)
+      exact (List.mem_erase_of_ne hxa).2 (hsub (List.mem_cons_of_mem _ hx))
+    have hlen' : (l₂.erase a).length ≤ t.length := by
+      rw [List.length_erase]; simp only [ha, if_true, List.length_cons] at hlen ⊢; omega
+    obtain ⟨hs, hnd⟩ := ih h₁.2 htsub hlen'
+    constructor
+    · intro x hx
+      by_cases hxa : x = a
+      · subst hxa; exact List.mem_cons_self ..
+      · exact List.mem_cons_of_mem _ (hs ((List.mem_erase_of_ne hxa).2 hx))
+    · have hna : a ∉ l₂.erase a := fun h => h₁.1 (hs h)
+      exact (List.perm_cons_erase ha).nodup_iff.mpr (List.nodup_cons.mpr ⟨hna, hnd⟩)
+
 /-! ### `mapM` in `Option` -/
 
 theorem mapM_some_get {α β : Type} (f : α → Option β) :
